@@ -87,6 +87,13 @@ class P(object):
             if self.peek() not in ("COMMA", "RBRACK", "RPAREN"):
                 raise Outside("value followed by %s" % self.peek())
             return v
+        if self.dict_start():                   # a dictionary as a list element (at any depth)
+            self.take("LBRACK")
+            pairs, trail = self.seq(self.pair, "RBRACK")
+            self.take("RBRACK")
+            if self.peek() not in ("COMMA", "RBRACK", "RPAREN"):
+                raise Outside("value followed by %s" % self.peek())
+            return "(XDict %s %s %s)" % (pairs[0], clist(pairs[1:]), cbool(trail))
         if self.peek() == "LBRACK":
             self.take("LBRACK")
             if self.peek() == "RBRACK":
@@ -157,6 +164,19 @@ class P(object):
             pairs, trail = self.seq(self.pair, "RBRACK")
             self.take("RBRACK")
             return "(%s, XADict %s %s %s)" % (ctext(name), pairs[0], clist(pairs[1:]), cbool(trail))
+        k = 0
+        while self.peek(k) in self.WORDS:
+            k += 1
+        if k > 0 and self.peek(k) == "COLON":     # unquoted text with colons (C:\data\in.csv, 12:30): only as a whole argument value
+            _, first = self.wordrun()
+            more = []
+            while self.peek() == "COLON":
+                self.take("COLON")
+                _, ws = self.wordrun()
+                more.append(ws)
+            if self.peek() not in ("COMMA", "RPAREN"):
+                raise Outside("colon text followed by %s" % self.peek())
+            return "(%s, XAColon %s %s)" % (ctext(name), first, clist(more))
         return "(%s, XAVal %s)" % (ctext(name), self.value())
 
     def cmd(self):
@@ -184,13 +204,20 @@ class P(object):
         return clist(cmds)
 
 
+SAMPLES = {}
+REASONS = {}      # why accepted renderings fall outside the surface family (reported in the evidence)
+
+
 def surface_case(parser_cls, text):
     """Coq term (program, gaps, final, text) or None when the text is outside the family"""
     try:
         toks, final = tokens_with_gaps(parser_cls, text)
         prog = P(toks).program()
-    except Outside:
+    except Outside as ex:
+        REASONS[str(ex)] = REASONS.get(str(ex), 0) + 1
+        SAMPLES.setdefault(str(ex), text)
         return None
-    except Exception:
+    except Exception as ex:
+        REASONS["error: " + type(ex).__name__] = REASONS.get("error: " + type(ex).__name__, 0) + 1
         return None
     return "(%s, %s, %s, %s)" % (prog, clist([ctext(g) for g, _, _ in toks]), ctext(final), ctext(text))   # the caller appends the float oracle
